@@ -124,13 +124,15 @@ static sexp_sint_t sexp_object_compare (sexp ctx, sexp a, sexp b, int depth) {
         case SEXP_PAIR:
           for (res=0, ls1=a, ls2=sexp_cdr(a); res == 0 && ls1 != ls2 && sexp_pairp(ls1) && sexp_pairp(b) && sexp_pairp(b); ls1=sexp_cdr(ls1), ls2=((sexp_pairp(ls2)&&sexp_pairp(sexp_cdr(ls2)))?sexp_cdr(ls2):SEXP_NULL), b=sexp_cdr(b))
             res = sexp_object_compare(ctx, sexp_car(ls1), sexp_car(b), depth-1);
-          if (sexp_pairp(ls2) && !sexp_pairp(b))
+          if (res != 0)
+            ;                   /* the first differing element decides */
+          else if (sexp_pairp(ls1) && !sexp_pairp(b))
             res = 1;
-          else if (sexp_pairp(b) && !sexp_pairp(ls2))
+          else if (sexp_pairp(b) && !sexp_pairp(ls1))
             res = -1;
           else if (ls1==SEXP_NULL && b==SEXP_NULL)
             res = 0;
-          else if (res == 0)
+          else
             res = sexp_object_compare(ctx, ls1, b, depth-1);
           break;
         case SEXP_VECTOR:
